@@ -74,6 +74,8 @@ SAFE_TO_IMPORT = {
     'builtins.bin',
     'builtins.None',
     'datetime.datetime',
+    'datetime.date',
+    'datetime.timezone',
     'datetime.time',
     'datetime.timedelta',
     'decimal.Decimal',
